@@ -126,11 +126,13 @@ class Monitor:
                 if st["current_load"] != load:
                     self.violate("state-load-mismatch:object",
                                  f"tick {self.tick}: {a.name} describe_state {st['current_load']!r} vs Link {load!r}")
-                elif not a.went_down and a.link.is_up and abs(st["current_load"] - a.counted) > 1e-6:
-                    # the load of an up link that stayed up all tick is the sum of the frames it accepted this tick
+                elif (not a.went_down and a.link.is_up and abs(st["current_load"] - a.counted) > 1e-6
+                      and abs(st["current_load"] - a.carried) > 1e-6):
+                    # The reported load of a link that stayed up all tick is this tick's traffic.  Two conventions are
+                    # admitted: every frame that crossed, or only those the far interface accepted (the code's present one).
                     self.violate("state-load-mismatch:accounting",
-                                 f"tick {self.tick}: {a.name} describe_state reports {st['current_load']!r}, frames accepted "
-                                 f"over the link this tick sum to {a.counted!r}")
+                                 f"tick {self.tick}: {a.name} describe_state reports {st['current_load']!r}; frames that crossed "
+                                 f"the link this tick sum to {a.carried!r}, those the far interface accepted to {a.counted!r}")
         if self.airspace is not None:
             for hz, cap in self.air_caps.items():
                 v = self.airspace.bandwidth_load.get(hz, 0.0)
